@@ -3,7 +3,7 @@ from __future__ import annotations
 
 import ast
 
-from ..engine import AnalysisError, PropertySpec, norm
+from ..engine import AnalysisError, MechanismMissing, PropertySpec, norm
 from ..pyutil import call_name, calls, const_str, kwarg, literal, method_name
 from ..sqlfacts import create_table_layout, sql_norm, table_of
 from ._pcache import PARSER, get
@@ -149,7 +149,7 @@ def r02_1(ctx, rep):
             name = d["stmts"][0] if d["stmts"] else "empty"
             rep.ob("R02.1", site, "txn:" + name, d["committed"], "transaction must be committed on every path (BEGIN … commit)")
     if n < 5:
-        raise AnalysisError("R02.1", "only %d transactions found in parser.py, expected at least 5" % n)
+        raise MechanismMissing("R02.1", "only %d transactions found in parser.py, expected at least 5" % n)
 
 
 @SPEC.rule(
@@ -185,7 +185,7 @@ def r02_3(ctx, rep):
             rep.ob("R02.3", PARSER + ":" + fn, "connect#%d:%s" % (n, norm(c.args[0]) if c.args else ""), ok,
                    "sqlite3.connect without isolation_level=None opens implicit transactions; explicit BEGIN then fails or pairs wrongly")
     if n < 2:
-        raise AnalysisError("R02.3", "fewer than 2 sqlite3.connect calls found")
+        raise MechanismMissing("R02.3", "fewer than 2 sqlite3.connect calls found")
 
 
 @SPEC.rule("R02.4", "every INSERT into a table with a primary key is INSERT OR REPLACE / OR IGNORE (two processes inserting the same key must not conflict)")
@@ -210,7 +210,7 @@ def r02_4(ctx, rep):
                 key = "execute:%s | %s" % (sql_norm(e.detail), bound.split(",")[0])
                 rep.ob("R02.4", site, key, ok, "plain INSERT into a keyed table raises IntegrityError in the loser of a race")
     if n < 3:
-        raise AnalysisError("R02.4", "fewer than 3 INSERT statements into keyed tables found")
+        raise MechanismMissing("R02.4", "fewer than 3 INSERT statements into keyed tables found")
 
 
 @SPEC.rule("R02.5", "no call to _parse (seconds of work) while a transaction is open")
@@ -218,7 +218,7 @@ def r02_5(ctx, rep):
     pc, info_s, info_p = _run(ctx, rep)
     calls_ = pc.parse_calls("_parse")
     if not calls_:
-        raise AnalysisError("R02.5", "no _parse call in parse()")
+        raise MechanismMissing("R02.5", "no _parse call in parse()")
     # violations are reported by the flow itself; record the discharged instances
     bad = {o.key for o in rep.obligations if o.rule == "R02.5" and not o.ok}
     if not bad:
@@ -241,7 +241,7 @@ def r02_6(ctx, rep):
             rep.ob("R02.6", PARSER + ":connect#%d" % n, "timeout " + (norm(t) if t is not None else "default"), ok,
                    "a busy timeout of %s lets concurrent parse() calls fail with 'database is locked' instead of waiting" % (norm(t) if t is not None else "default"))
     if n < 2:
-        raise AnalysisError("R02.6", "fewer than 2 sqlite3.connect calls found")
+        raise MechanismMissing("R02.6", "fewer than 2 sqlite3.connect calls found")
 
 
 @SPEC.rule(
@@ -275,7 +275,7 @@ def r02_7(ctx, rep):
                    "statements %s run under the handler that deletes the cache file: contention on them (OperationalError is a "
                    "DatabaseError) would remove the database while another parse() is using it" % bad)
     if n < 1:
-        raise AnalysisError("R02.7", "no handler removing the database file found")
+        raise MechanismMissing("R02.7", "no handler removing the database file found")
 
 
 # -- seeded variants ---------------------------------------------------------
